@@ -71,6 +71,16 @@ class Usim(object):
         self.starts = 0
 
     def _start(self):
+        if self.flavour == "san" and not self.stderr_path:
+            # sanitizer reports go to stderr: keep them for the crash signature
+            d = os.path.join(BUILD, "scratch")
+            os.makedirs(d, exist_ok=True)
+            self.stderr_path = os.path.join(d, "stderr-%d-%d.log" % (os.getpid(), id(self) & 0xffff))
+        if self.stderr_path and self.flavour == "san":
+            try:
+                open(self.stderr_path, "wb").close()
+            except OSError:
+                pass
         env = dict(os.environ)
         env.setdefault("USCXML_NOCACHE_FILES", "1")
         env.update(self.extra_env)
@@ -156,6 +166,15 @@ class Usim(object):
             self.proc = None
             if res.end is None and res.crash is None:
                 res.crash = ("exit", res.exitcode, [])
+            if res.end is None and self.stderr_path:
+                try:
+                    with open(self.stderr_path, "rb") as f:
+                        f.seek(0, 2)
+                        n = f.tell()
+                        f.seek(max(0, n - 6000))
+                        res.stderr_tail = f.read().decode("utf-8", "replace")
+                except OSError:
+                    pass
         return res
 
 
@@ -225,6 +244,16 @@ def _worker(args):
         mod = __import__(modname)
         usim = Usim(flavour)
         ctx = mod.Context(prop, tier, opts) if hasattr(mod, "Context") else None
+        extra = {}
+        if ctx is not None:
+            # modules that mix flavours ask for another child with ctx.usim_for(flavour)
+            def usim_for(fl, _extra=extra, _default=usim, _dfl=flavour):
+                if fl == _dfl:
+                    return _default
+                if fl not in _extra:
+                    _extra[fl] = Usim(fl)
+                return _extra[fl]
+            ctx.usim_for = usim_for
         max_viol = opts.get("max_violations_per_worker", 40)
         for k in indices:
             if time.time() > deadline:
@@ -241,8 +270,10 @@ def _worker(args):
             if len(acc.violations) >= max_viol:
                 acc.count("stopped_after_max_violations")
                 break
-        acc.usim_starts = usim.starts
+        acc.usim_starts = usim.starts + sum(u.starts for u in extra.values())
         usim.close()
+        for u in extra.values():
+            u.close()
     except Exception:
         acc.harness_errors.append("worker %d: %s" % (widx, traceback.format_exc()[-1500:]))
     return acc
